@@ -133,6 +133,15 @@ def program(draw):
     for name in planned[nlabels:]:
         stmts.append(("label", name))
     dotted = draw(st.booleans())
+    # CPU directive placement: first line (usual), or after a few statements assembled under the defaults
+    # (msp430: 1 byte per address, little endian), optionally a second CPU switch later on
+    c = draw(st.integers(0, 9))
+    if c <= 2 and stmts:
+        pos = draw(st.integers(1, min(4, len(stmts))))
+        stmts.insert(pos, ("cpu", cpu))
+        if c == 0 and len(stmts) > pos + 2:
+            stmts.insert(draw(st.integers(pos + 1, len(stmts))), ("cpu", draw(st.sampled_from(CPUS))))
+        cpu = ("msp430", 1, 0, "implicit")
     return (cpu, stmts, dotted)
 
 
@@ -209,6 +218,9 @@ class Model:
                     emit(x, 1)
             elif k == "endian":
                 endian = s[1]
+            elif k == "cpu":
+                bpa = s[1][1]
+                endian = s[1][2]
         return img, defs
 
 
@@ -219,7 +231,7 @@ def needs_alignment_fix(stmts, bpa):
 
 def render(cpu, stmts, dotted, files):
     d = "." if dotted else ""
-    lines = [".%s" % cpu[0]]
+    lines = [] if len(cpu) > 3 else [".%s" % cpu[0]]
     for s in stmts:
         k = s[0]
         if k == "label":
@@ -242,6 +254,8 @@ def render(cpu, stmts, dotted, files):
             lines.append(".binfile \"%s\"" % name)
         elif k == "endian":
             lines.append(".big_endian" if s[1] else ".little_endian")
+        elif k == "cpu":
+            lines.append(".%s" % s[1][0])
     return "\n".join(lines) + "\n"
 
 
@@ -249,7 +263,7 @@ def sanitize(cpu, stmts):
     """construction (not filtering): drop labels and rewrite $-uses at positions where the byte counter is
     not a multiple of bytes-per-address, and drop references to labels that became undefined."""
     bpa = cpu[1]
-    if bpa == 1:
+    if bpa == 1 and not any(s[0] == "cpu" for s in stmts):
         return stmts
     m = Model(cpu)
     out = []
@@ -258,6 +272,7 @@ def sanitize(cpu, stmts):
         trial = out + [s]
         # counter before this statement
         ctr = _counter(m, out)
+        bpa = _bpa_after(m, out)
         if s[0] == "label":
             if ctr % bpa:
                 continue
@@ -295,12 +310,22 @@ def _max_counter(m, stmts):
     return top
 
 
+def _bpa_after(m, stmts):
+    bpa = m.bpa
+    for s in stmts:
+        if s[0] == "cpu":
+            bpa = s[1][1]
+    return bpa
+
+
 def _counter(m, stmts):
     bpa = m.bpa
     ctr = 0
     for s in stmts:
         k = s[0]
-        if k == "org":
+        if k == "cpu":
+            bpa = s[1][1]
+        elif k == "org":
             ctr = s[1] * bpa
         elif k in ("db", "dc8", "ascii", "asciiz"):
             for it in s[1]:
@@ -391,7 +416,7 @@ class Checker:
         if top >= 0xfffffff0:
             self.s.count("excluded.counter_wraps_32bit")
             return
-        if cpu[1] > 1 and top >= 0x80000000:
+        if (cpu[1] > 1 or any(s_[0] == "cpu" and s_[1][1] > 1 for s_ in stmts)) and top >= 0x80000000:
             # open finding C05-signed-byte-address: excluded by construction, counted
             self.s.excluded_known += 1
             self.s.count("excluded.known.signed_byte_address")
@@ -478,6 +503,8 @@ def run(tier, seed, shard, nshards):
         for k in kinds:
             s.count("kind." + k)
         s.count("cpu.%s(bpa=%d,%s)" % (cpu[0], cpu[1], "BE" if cpu[2] else "LE"))
+        if "cpu" in kinds:
+            s.count("class.cpu_directive_not_first")
         mover = any(k in kinds for k in ("org", "align", "align_bytes", "resb", "resw"))
         if len(kinds) >= 3 and mover:
             m = Model(cpu)
